@@ -84,6 +84,14 @@ func init() {
 			}
 		}
 		g.pf("def conv : List (String × String) :=\n  %s\n\n", leanPairList(convFns))
+		// package-level variables: what Model/Global.lean (the guard, and the definition that is evaluated at every use) was written from
+		var globalFns [][2]string
+		for _, n := range []string{"Ctx.globalVarDecl", "holdsReference", "Ctx.constSpec", "Ctx.variable"} {
+			if fds[n] != nil {
+				globalFns = append(globalFns, [2]string{n, canonFunc(p, fds[n])})
+			}
+		}
+		g.pf("def globals : List (String × String) :=\n  %s\n\n", leanPairList(globalFns))
 		// functions, calls, closures, methods, strings: what the functions model (Model/Fun.lean) was written from
 		var funs [][2]string
 		for _, n := range []string{"Ctx.funcDecl", "Ctx.paramList", "Ctx.returnExpr", "Ctx.returnType", "Ctx.funcLit", "Ctx.callExpr", "Ctx.methodExpr", "Ctx.selectorMethod",
